@@ -743,20 +743,29 @@ class Builtins:
         sym = self.symbolic_iter(first, e)
         n, at, _ = sym
         c = self.contracts.get(cf.fi.fq) if cf.fi else None
-        elem_t = c.locals.get(f"#comp@{e.lineno}") if c else None
+        ordn = self.comp_ordinal(cf.fi, e) if cf.fi else 0
+        elem_t = c.locals.get(f"#comp{ordn}") if c else None
         if elem_t is None:
-            raise EngineError(f"comprehension over SMT list at line {e.lineno}: declare its element type as locals['#comp@{e.lineno}']")
+            raise EngineError(f"comprehension {ordn} over SMT list at line {e.lineno}: declare its element type as locals['#comp{ordn}']")
         new = self.new_slist(elem_t, "comp")
         def item(k):
-            self.assign(g.target, at(k), cf)
+            self.ctx.push_param(k, z3.And(0 <= k, k < n))
             self.ctx.no_branch += 1
             try:
-                v = self.guarded(z3.And(0 <= k, k < n), lambda: self.ev(e.elt, cf))
+                self.assign(g.target, at(k), cf)
+                v = self.ev(e.elt, cf)
             finally:
                 self.ctx.no_branch -= 1
+                self.ctx.pop_param()
             return elem_t.pack(v, self.ctx)
         self.ctx.set_list(new, n, ("fn", item))
         return new
+
+    def comp_ordinal(self, fi, node):
+        import ast as _ast
+        comps = [x for x in _ast.walk(fi.node) if isinstance(x, (_ast.ListComp, _ast.GeneratorExp, _ast.SetComp, _ast.DictComp))]
+        comps.sort(key=lambda x: (x.lineno, x.col_offset))
+        return [id(x) for x in comps].index(id(node)) + 1
 
     def list_repeat_sym(self, a, b, node):
         """[x] * n with symbolic n -> SMT list (element type from the single element)"""
